@@ -72,7 +72,7 @@ Seal == /\ phase = "build" /\ Len(prog) >= MinLen
              LET p == Absolute(prog)
                  fin == Final(p, RegImage(im[1]), im[2], MemSize, Fuel)
              IN /\ Defined(fin) /\ fin.status # "err"
-                /\ c' = CaseRec("General", p, RegImage(im[1]), im[2], MemSize, fin, {}, {}, {}, [a |-> 0])
+                /\ c' = CaseRec("General", p, RegImage(im[1]), im[2], MemSize, fin, {}, {}, Tags(p, fin), [a |-> 0])
         /\ phase' = "done" /\ UNCHANGED prog
 
 Next == Extend \/ Seal
